@@ -60,6 +60,8 @@ pub struct Outcome {
     pub ends: u64,
     pub events: u64,
     pub max_stack: usize,
+    /// Largest single heap request made while the run was armed.
+    pub max_alloc: usize,
     pub api: BTreeMap<&'static str, ApiStat>,
     pub probes: BTreeSet<&'static str>,
     pub err_kinds: BTreeSet<(&'static str, &'static str)>,
@@ -131,9 +133,13 @@ pub fn execute(case: &Case, mon: Monitors, keep_log: bool) -> Outcome {
     let mut ctx = Ctx::new(case, sim.clone(), keep_log, mon);
     LAST_PANIC.with(|p| *p.borrow_mut() = None);
     IN_RUN.with(|r| r.set(true));
+    crate::alloc::take_peak_single();
+    crate::alloc::arm(true);
     let res = catch_unwind(AssertUnwindSafe(|| {
         crate::engines::dispatch(case, &mut ctx);
     }));
+    crate::alloc::arm(false);
+    let max_alloc = crate::alloc::take_peak_single();
     IN_RUN.with(|r| r.set(false));
     sim.clear_budget();
     sim.mute(false);
@@ -182,6 +188,7 @@ pub fn execute(case: &Case, mon: Monitors, keep_log: bool) -> Outcome {
         ends: ctx.ends,
         events: ctx.rec.events,
         max_stack: sim.sp_max_depth.get(),
+        max_alloc,
         api: std::mem::take(&mut ctx.api),
         probes: std::mem::take(&mut ctx.probes),
         err_kinds: std::mem::take(&mut ctx.err_kinds),
